@@ -554,8 +554,19 @@ def handler_config(ctx, cfg, draws, seed, nsend):
             how = rng.choice(TRANSPORTS)
             ctx.count("handler-walkers-transport:" + how)
             try:
-                handler._upper_bound_walker = [transport(w, how) for w in handler._upper_bound_walker]
-                handler._lower_bound_walker = [transport(w, how) for w in handler._lower_bound_walker]
+                by_ident = {c.identifier: c for c in all_cells}
+
+                def carried(w):
+                    # the copy's table and rates are what is under test; its items are copies of the Cell objects, which the
+                    # handler (copied as a whole in real use) would find in its equally copied cell system: map them back
+                    w2 = transport(w, how)
+                    if w2 is not w:
+                        for row in w2._table:
+                            for it in row:
+                                it.item = by_ident[it.item.identifier]
+                    return w2
+                handler._upper_bound_walker = [carried(w) for w in handler._upper_bound_walker]
+                handler._lower_bound_walker = [carried(w) for w in handler._lower_bound_walker]
             except Exception as e:
                 ctx.fail("CellVetoEventHandler:alias-table-cannot-be-copied-or-pickled:" + how, {"config": list(cfg), "estimator_seed": seed},
                          f"{how} of an initialized handler's Walker raised {e!r}")
